@@ -367,10 +367,15 @@ Proof.
 Qed.
 
 (* ---------- commutation with a group operation ------------------------------------------ *)
-(* g of dimension d acting on n sites: rot is d x d, every delu_i has d entries, indices stay >= 0 *)
-Definition lop_wf (d : nat) (g : lop K) : Prop :=
-  length (l_rot g) = d /\ (forall i, 0 <= i -> length (zth (l_t g) i []) = d) /\
-  (forall i, 0 <= i -> 0 <= zth (l_perm g) i 0).
+(* g of dimension d acting on the n sites of the sublattice: rot has d rows, every delu_i has d
+   entries, and indexmap maps 0..n-1 into 0..n-1 *)
+Definition lop_wf (d : nat) (n : Z) (g : lop K) : Prop :=
+  length (l_rot g) = d /\ (forall i, 0 <= i < n -> length (zth (l_t g) i []) = d) /\
+  (forall i, 0 <= i < n -> 0 <= zth (l_perm g) i 0 < n).
+Definition ps_in (n : Z) (a : pstate) : Prop := 0 <= ps_i a < n /\ 0 <= ps_j a < n.
+
+Lemma ps_in_regular n a : ps_in n a -> ps_regular a.
+Proof. intros [I J]. split; lia. Qed.
 
 Lemma ps_g_unfold (g : lop K) (a : pstate) :
   ps_g g a = mkPS (zth (l_perm g) (ps_i a) 0) (zth (l_perm g) (ps_j a) 0)
@@ -379,73 +384,75 @@ Lemma ps_g_unfold (g : lop K) (a : pstate) :
                   (kmulmv (l_cart g) (ps_dx a)).
 Proof. reflexivity. Qed.
 
-Lemma ps_g_regular d g a : lop_wf d g -> ps_regular a -> ps_regular (ps_g g a).
-Proof. intros (_&_&P) [I J]. rewrite ps_g_unfold. split; cbn; apply P; assumption. Qed.
+Lemma ps_g_in d n g a : lop_wf d n g -> ps_in n a -> ps_in n (ps_g g a).
+Proof. intros (_&_&P) [I J]. rewrite ps_g_unfold. split; psimp; apply P; assumption. Qed.
 
-Theorem ps_g_neg d (g : lop K) (a : pstate) :
-  lop_wf d g -> ps_wf d a -> ps_regular a -> ps_g g (ps_neg a) = ps_neg (ps_g g a).
+Theorem ps_g_neg d n (g : lop K) (a : pstate) :
+  lop_wf d n g -> ps_wf d a -> ps_in n a -> ps_g g (ps_neg a) = ps_neg (ps_g g a).
 Proof.
   intros (Lr & Lt & _) [La Ld] [I J]. rewrite !ps_g_unfold. unfold ps_neg; psimp.
   pose proof (Lt _ I) as Ti. pose proof (Lt _ J) as Tj.
   f_equal; [| apply kmulmv_kneg]. vext.
 Qed.
 
-Theorem ps_g_add d (g : lop K) (a b c : pstate) :
-  lop_wf d g -> ps_wf d a -> ps_wf d b -> ps_regular a -> ps_regular b ->
+Theorem ps_g_add d n (g : lop K) (a b c : pstate) :
+  lop_wf d n g -> ps_wf d a -> ps_wf d b -> ps_in n a -> ps_in n b ->
   ps_add a b = Some c -> ps_add (ps_g g a) (ps_g g b) = Some (ps_g g c).
 Proof.
-  intros Wg [La Lda] [Lb Ldb] Ra Rb E.
+  intros Wg [La Lda] [Lb Ldb] Ia Ib E.
+  pose proof (ps_in_regular n a Ia) as Ra. pose proof (ps_in_regular n b Ib) as Rb.
   assert (M : ps_j a = ps_i b).
-  { destruct (Z.eq_dec (ps_j a) (ps_i b)) as [e|n]; [exact e|]. exfalso.
-    assert (ps_add a b = None); [|congruence]. apply ps_add_defined. destruct Ra as [_ Ja], Rb as [Ib _].
+  { destruct (Z.eq_dec (ps_j a) (ps_i b)) as [e|ne]; [exact e|]. exfalso.
+    assert (ps_add a b = None); [|congruence]. apply ps_add_defined. destruct Ra as [_ Ja], Rb as [Ib' _].
     destruct (Z.eqb_spec (ps_j a) (-1)); [lia|]. destruct (Z.eqb_spec (ps_i b) (-1)); [lia|].
     rewrite !andb_false_r. auto. }
   rewrite (ps_add_regular a b Ra Rb M) in E. injection E as <-.
-  rewrite ps_add_regular; [| eapply ps_g_regular; eassumption | eapply ps_g_regular; eassumption
-                           | rewrite !ps_g_unfold; cbn; rewrite M; reflexivity].
-  destruct Wg as (Lr & Lt & _). destruct Ra as [Ia Ja], Rb as [Ib Jb].
+  rewrite ps_add_regular;
+    [| eapply ps_in_regular; eapply ps_g_in; eassumption | eapply ps_in_regular; eapply ps_g_in; eassumption
+     | rewrite !ps_g_unfold; psimp; rewrite M; reflexivity].
+  destruct Wg as (Lr & Lt & _). destruct Ia as [Ia Ja], Ib as [Ib Jb].
   pose proof (Lt _ Ia). pose proof (Lt _ Ja). pose proof (Lt _ Ib). pose proof (Lt _ Jb).
-  rewrite !ps_g_unfold. unfold ps_add_plain; cbn. f_equal. f_equal.
+  rewrite !ps_g_unfold. unfold ps_add_plain; psimp. f_equal. f_equal.
   - rewrite M in *. vext.
   - symmetry. apply kmulmv_kadd. congruence.
 Qed.
 
-Theorem ps_g_xor d (g : lop K) (a b c : pstate) :
-  lop_wf d g -> ps_wf d a -> ps_wf d b -> ps_regular a -> ps_regular b ->
+Theorem ps_g_xor d n (g : lop K) (a b c : pstate) :
+  lop_wf d n g -> ps_wf d a -> ps_wf d b -> ps_in n a -> ps_in n b ->
   ps_xor a b = Some c -> ps_xor (ps_g g a) (ps_g g b) = Some (ps_g g c).
 Proof.
   intros (Lr & Lt & _) [La Lda] [Lb Ldb] [Ia Ja] [Ib Jb] E. unfold ps_xor in *.
-  destruct (Z.eqb_spec (ps_i a) (ps_i b)) as [M|]; [|discriminate]. cbn in E. injection E as <-.
-  rewrite !ps_g_unfold; cbn. rewrite M, Z.eqb_refl. cbn. f_equal.
+  destruct (Z.eqb_spec (ps_i a) (ps_i b)) as [M|]; [|discriminate]. cbn [negb] in E. injection E as <-.
+  rewrite !ps_g_unfold; psimp. rewrite M, Z.eqb_refl. psimp. f_equal.
   pose proof (Lt _ Ia). pose proof (Lt _ Ja). pose proof (Lt _ Ib). pose proof (Lt _ Jb).
   f_equal.
   - rewrite M in *. vext.
   - symmetry. apply kmulmv_ksub. congruence.
 Qed.
 
-Theorem ps_g_sub d (g : lop K) (a b c : pstate) :
-  lop_wf d g -> ps_wf d a -> ps_wf d b -> ps_regular a -> ps_regular b ->
+Theorem ps_g_sub d n (g : lop K) (a b c : pstate) :
+  lop_wf d n g -> ps_wf d a -> ps_wf d b -> ps_in n a -> ps_in n b ->
   ps_sub a b = Some c -> ps_sub (ps_g g a) (ps_g g b) = Some (ps_g g c).
 Proof.
-  intros Wg Wa Wb Ra Rb E. unfold ps_sub in *.
-  rewrite <- (ps_g_neg d g b Wg Wb Rb).
-  apply (ps_g_add d g a (ps_neg b) c Wg Wa); try assumption.
-  - destruct Wb as [L1 L2]; split; cbn; [vlen | unfold kneg; rewrite map_length; exact L2].
-  - destruct Rb; split; cbn; assumption.
+  intros Wg Wa Wb Ia Ib E. unfold ps_sub in *.
+  rewrite <- (ps_g_neg d n g b Wg Wb Ib).
+  apply (ps_g_add d n g a (ps_neg b) c Wg Wa); try assumption.
+  - apply ps_neg_wf; exact Wb.
+  - destruct Ib; split; unfold ps_neg; psimp; assumption.
 Qed.
 
-Theorem ps_g_iszero d (g : lop K) (a : pstate) :
-  lop_wf d g -> ps_wf d a -> ps_regular a -> ps_iszero a = true -> ps_iszero (ps_g g a) = true.
+Theorem ps_g_iszero d n (g : lop K) (a : pstate) :
+  lop_wf d n g -> ps_wf d a -> ps_in n a -> ps_iszero a = true -> ps_iszero (ps_g g a) = true.
 Proof.
   intros (Lr & Lt & _) [La _] [Ia Ja] Z. unfold ps_iszero in *. apply andb_true_iff in Z as [E R0].
-  apply Z.eqb_eq in E. rewrite ps_g_unfold; cbn. rewrite E, Z.eqb_refl. cbn.
+  apply Z.eqb_eq in E. rewrite ps_g_unfold; psimp. rewrite E, Z.eqb_refl. psimp.
   pose proof (Lt _ Ja). apply viszero_nth. intro k.
   apply viszero_spec in R0. rewrite R0. vnth. lia.
 Qed.
 
 Theorem ps_g_eq (g : lop K) (a b : pstate) : ps_eqb a b = true -> ps_eqb (ps_g g a) (ps_g g b) = true.
 Proof.
-  rewrite !ps_eqb_spec. intros (E1 & E2 & E3). rewrite !ps_g_unfold; cbn. rewrite E1, E2, E3. auto.
+  rewrite !ps_eqb_spec. intros (E1 & E2 & E3). rewrite !ps_g_unfold; psimp. rewrite E1, E2, E3. auto.
 Qed.
 
 End Laws.
@@ -496,8 +503,8 @@ Proof.
 Qed.
 
 (* g (s + v) = g s + rot.v *)
-Theorem cs_g_add d (g : lop K) (a b : csite) (v : vec) :
-  lop_wf K d g -> length (cs_R a) = d -> length v = d -> 0 <= cs_i a ->
+Theorem cs_g_add d n (g : lop K) (a b : csite) (v : vec) :
+  lop_wf K d n g -> length (cs_R a) = d -> length v = d -> 0 <= cs_i a < n ->
   cs_add a v = Some b -> cs_add (cs_g g a) (mulmv (l_rot g) v) = Some (cs_g g b).
 Proof.
   intros (Lr & Lt & _) La Lv I E. unfold cs_add in *. rewrite Lv, La, Nat.eqb_refl in E. cbn [negb] in E.
@@ -990,7 +997,8 @@ Proof.
     apply in_map_iff in Hs as (s' & <- & Hs'). apply F in Hs'. apply Nat.eqb_eq in Hs'.
     unfold cs_shift; cbn [cs_R]. vlen.
   - intros ->. split.
-    + rewrite map_length. rewrite (Permutation_length P). apply N; reflexivity.
+    + change (2 <= length (map (cs_shift (vneg (cs_R s0))) (s0 :: rest)))%nat.
+      rewrite map_length. rewrite (Permutation_length P). apply N; reflexivity.
     + unfold site0; cbn [cl_sites map nth]. unfold cs_shift; cbn [cs_R]. vext.
 Qed.
 
@@ -1032,7 +1040,8 @@ Proof.
   assert (F2 : forallb (fun s => (length (cs_R s) =? length (cs_R s0))%nat) (s0 :: rest) = true).
   { apply forallb_forall. intros s Hs. apply Nat.eqb_eq. rewrite (L' s Hs), (L' s0 (or_introl eq_refl)). reflexivity. }
   rewrite F1, F2. do 2 f_equal.
-  change (cs_shift T s0 :: map (cs_shift T) rest) with (map (cs_shift T) (s0 :: rest)).
+  change (map (cs_shift (vneg (cs_R (cs_shift T s0)))) (map (cs_shift T) (s0 :: rest))
+          = map (cs_shift (vneg (cs_R s0))) (s0 :: rest)).
   rewrite map_map. apply map_ext_in. intros s Hs.
   pose proof (L' s Hs). pose proof (L' s0 (or_introl eq_refl)).
   destruct s as [c i R], s0 as [c0 i0 R0]; unfold cs_shift; cbn [cs_c cs_i cs_R] in *. f_equal. vext.
@@ -1044,19 +1053,19 @@ End ClusterMake.
 Example ex_ps_sub_add :
   let a := mkPS (K:=Zring) 0 1 [1; -2] [3; 4] in let b := mkPS (K:=Zring) 2 1 [0; 5] [1; 1] in
   ps_wf Zring 2 a /\ ps_wf Zring 2 b /\ ps_j a = ps_j b /\
-  ps_sub a b = Some (mkPS 0 2 [1; -7] [2; 3]) /\ ps_add (mkPS (K:=Zring) 0 2 [1; -7] [2; 3]) b = Some a.
+  ps_sub a b = Some (mkPS (K:=Zring) 0 2 [1; -7] [2; 3]) /\ ps_add (mkPS (K:=Zring) 0 2 [1; -7] [2; 3]) b = Some a.
 Proof. cbn. repeat split; reflexivity. Qed.
 
 Example ex_ps_g :
   let g := mkLop (K:=Zring) [[0; -1]; [1; 0]] [1; 0] [[0; 0]; [1; 0]] [[0; -1]; [1; 0]] in
   let a := mkPS (K:=Zring) 0 1 [1; 0] [1; 2] in let b := mkPS (K:=Zring) 1 0 [2; 1] [0; 1] in
-  lop_wf Zring 2 g /\ ps_add a b = Some (mkPS 0 0 [3; 1] [1; 3]) /\
-  ps_add (ps_g g a) (ps_g g b) = Some (ps_g g (mkPS 0 0 [3; 1] [1; 3])).
+  lop_wf Zring 2 2 g /\ ps_in Zring 2 a /\ ps_in Zring 2 b /\ ps_add a b = Some (mkPS (K:=Zring) 0 0 [3; 1] [1; 3]) /\
+  ps_add (ps_g g a) (ps_g g b) = Some (ps_g g (mkPS (K:=Zring) 0 0 [3; 1] [1; 3])).
 Proof.
-  cbn. split; [|split; reflexivity]. split; [reflexivity|]. split.
-  - intros i Hi. unfold zth. cbn [l_t]. destruct (Z.to_nat i) as [|[|n]]; cbn; try reflexivity.
-    destruct n; reflexivity.
-  - intros i Hi. unfold zth. cbn [l_perm]. destruct (Z.to_nat i) as [|[|n]]; cbn; try lia. destruct n; cbn; lia.
+  cbn. split; [|split; [|split; [|split; reflexivity]]].
+  - split; [reflexivity|]. split; intros i Hi; assert (E : i = 0 \/ i = 1) by lia; destruct E as [->| ->]; unfold zth; simpl; try reflexivity; lia.
+  - split; cbn; lia.
+  - split; cbn; lia.
 Qed.
 
 Example ex_cluster :
@@ -1080,4 +1089,35 @@ Proof.
   cbn. repeat split; try reflexivity; try (cbn; lia).
   - intros s [<-|[<-|[<-|[]]]]; reflexivity.
   - intros s [<-|[<-|[<-|[]]]]; reflexivity.
+Qed.
+
+(* ---------- bundled statements used by Properties/C36.v --------------------------------- *)
+Theorem ps_eq_laws (K : ordring) (H : list Z -> Z) (a b c : pstate K) :
+  ps_eqb a a = true /\ ps_eqb a b = ps_eqb b a /\
+  (ps_eqb a b = true -> ps_eqb b c = true -> ps_eqb a c = true) /\
+  ps_neb a b = negb (ps_eqb a b) /\ (ps_eqb a b = true -> ps_hash H a = ps_hash H b).
+Proof.
+  repeat split; [apply ps_eq_refl | apply ps_eq_sym | apply ps_eq_trans | apply ps_eq_hash].
+Qed.
+
+Theorem cs_eq_laws (H : list Z -> Z) (a b c : csite) :
+  cs_eqb a a = true /\ cs_eqb a b = cs_eqb b a /\
+  (cs_eqb a b = true -> cs_eqb b c = true -> cs_eqb a c = true) /\
+  cs_neb a b = negb (cs_eqb a b) /\ (cs_eqb a b = true -> cs_hash H a = cs_hash H b).
+Proof.
+  repeat split; [apply cs_eq_refl | apply cs_eq_sym | apply cs_eq_trans | apply cs_eq_hash].
+Qed.
+
+Theorem cl_eq_laws (H : list Z -> Z) d (a b c : cluster) :
+  cl_canon d a -> cl_canon d b -> cl_canon d c ->
+  cl_eqb a a = true /\ cl_eqb a b = cl_eqb b a /\
+  (cl_eqb a b = true -> cl_eqb b c = true -> cl_eqb a c = true) /\
+  cl_neb a b = negb (cl_eqb a b) /\
+  (NoDup (cl_entries a) -> NoDup (cl_entries b) -> cl_eqb a b = true -> cl_hash H a = cl_hash H b).
+Proof.
+  intros Ca Cb Cc. repeat split.
+  - apply (cl_eq_refl d); assumption.
+  - apply (cl_eq_sym d); assumption.
+  - apply (cl_eq_trans d); assumption.
+  - apply (cl_eq_hash H d); assumption.
 Qed.
